@@ -367,12 +367,19 @@ def _freeze(world):
 
 # ---- the real thing --------------------------------------------------------------------
 
+def cache_path(name, layout="flat"):
+    """the file of cache *name* (name includes the data set); in the current directory or in a directory of its own"""
+    return "cache_%s.pkl" % name if layout == "flat" else os.path.join("d_%s" % name, "cache.pkl")
+
+
 class Real(object):
     """the pipeline elements of one program; rebuilt for every run unless the
     history re-uses its objects (one process running the same sequence again)"""
 
-    def __init__(self, stages, recompute, templated=False):
+    def __init__(self, stages, recompute, templated=False, ds="", layout="flat"):
         self.els, self.stage_objs, self.caches = [], {}, {}
+        self.ds = ds
+        self.setters = {}
         for idx, r in enumerate(stages):
             if r[0] in ("map", "mut"):
                 s = Stage(r)
@@ -385,22 +392,34 @@ class Real(object):
             else:
                 if templated:
                     # all caches are built from one template and named by the static context
-                    self.els.append(SetContext("stage", r[1]))
-                    c = Cache("cache_{{stage}}.pkl", recompute=recompute.get(r[1], False))
+                    self.setters[len(self.els)] = r[1]
+                    self.els.append(SetContext("stage", r[1] + ds))
+                    c = Cache(cache_path("{{stage}}", layout), recompute=recompute.get(r[1], False))
                 else:
-                    c = Cache("cache_%s.pkl" % r[1], recompute=recompute.get(r[1], False))
+                    c = Cache(cache_path(r[1], layout), recompute=recompute.get(r[1], False))
                 self.caches[r[1]] = c
                 self.els.append(c)
         self.seq = None
         self.source = None
         self.cur_src = None
 
+    def rebind(self, ds):
+        """the same analysis elements (caches with a templated name among them) put into a new sequence
+        for another data set: the static context names other cache files"""
+        for i, nm in self.setters.items():
+            self.els[i] = SetContext("stage", nm + ds)
+        self.ds = ds
+        self.seq = None
+        self.source = None
 
-def run_real(stages, op, values, mode=None, real=None, templated=False):
+
+def run_real(stages, op, values, mode=None, real=None, templated=False, ds="", layout="flat"):
     fault = op.get("fault")
     reuse = real is not None
     if real is None:
-        real = Real(stages, op.get("recompute", {}), templated)
+        real = Real(stages, op.get("recompute", {}), templated, ds, layout)
+    elif real.ds != ds:
+        real.rebind(ds)
     els, stage_objs = real.els, real.stage_objs
     before = dict((idx, s.calls) for idx, s in stage_objs.items())
     for s in stage_objs.values():
@@ -484,7 +503,9 @@ def judge_history(case):
     stages, n, with_ctx = case["stages"], case["n"], case["ctx"]
     mode = "shared" if with_ctx == "shared" else None
     cache_names = [r[1] for r in stages if r[0] == "cache"]
-    worlds = [dict((nm, None) for nm in cache_names)]
+    # (caches named by a template: every data set has its own files, hence its own possible worlds)
+    worlds_by_ds = {}
+    cur_ds = ""
     classes = ["caches:%d" % len(cache_names), "values:%s" % with_ctx]
     interrupted_first_fill = False
     followed = False
@@ -492,15 +513,19 @@ def judge_history(case):
     fixed_recompute = case.get("recompute0", {}) if reuse else None
     with instr.Sandbox("lena-c18-"):
         templated = bool(case.get("templated"))
-        real = Real(stages, fixed_recompute, templated) if reuse else None
+        layout = case.get("layout", "flat")
+        classes.append("cache-files:" + layout)
+        real = Real(stages, fixed_recompute, templated, "", layout) if reuse else None
         for step, op in enumerate(case["ops"]):
             version = step + 1
             if op["op"] == "drop":
                 nm = op["which"]
                 if nm not in cache_names:
                     continue
+                drop_ds = cur_ds if reuse else ""
+                worlds = worlds_by_ds.setdefault(drop_ds, [dict((nm_, None) for nm_ in cache_names)])
                 try:
-                    (real.caches[nm] if reuse else Cache("cache_%s.pkl" % nm)).drop_cache()
+                    (real.caches[nm] if reuse else Cache(cache_path(nm, layout))).drop_cache()
                 except OSError:
                     if all(w[nm] is not None for w in worlds):
                         raise Violation("drop_cache-fails-on-existing-cache", "step %d of %s" % (step, case))
@@ -515,7 +540,11 @@ def judge_history(case):
                 op["driver"] = "source" if case.get("reuse_driver") == "source" else "seq"
             # (the upstream may deliver a different number of values in every run)
             values = upstream_values(op.get("n", n), version, with_ctx)
-            out, completed, exc, pulls, calls, how = run_real(stages, op, copy.deepcopy(values), mode, real if reused else None, templated)
+            cur_ds = op.get("ds", "") if templated else ""
+            if cur_ds:
+                classes.append("same-elements-under-another-static-context" if reused else "other-data-set")
+            worlds = worlds_by_ds.setdefault(cur_ds, [dict((nm_, None) for nm_ in cache_names)])
+            out, completed, exc, pulls, calls, how = run_real(stages, op, copy.deepcopy(values), mode, real if reused else None, templated, cur_ds, layout)
             killed = op["stop"][0] == "kill"
             matched = []
             sims = []
@@ -556,6 +585,7 @@ def judge_history(case):
                 for s in succ:
                     new[_freeze(s)] = s
             worlds = list(new.values())
+            worlds_by_ds[cur_ds] = worlds
             # classification
             last_cache = max(i for i, r in enumerate(stages) if r[0] == "cache")
             any_fill = any(lr < last_cache for _, _, _, lr in matched)
@@ -603,7 +633,9 @@ def history_case(draw, big=False):
     case = {"stages": stages, "n": n, "ctx": draw(st.sampled_from([False, True, True, "shared", "big", "fragile"]))}
     if draw(st.integers(0, 3)) == 0:
         case["templated"] = True
-    if draw(st.integers(0, 3)) == 0:
+    if draw(st.integers(0, 2)) == 0:
+        case["layout"] = "subdir"
+    if draw(st.integers(0, 3 if not case.get("templated") else 1)) == 0:
         case["reuse"] = True
         case["reuse_driver"] = draw(st.sampled_from(["seq", "source"]))
         case["recompute0"] = dict((nm, True) for nm in names if draw(st.integers(0, 2)) == 0)
@@ -640,6 +672,8 @@ def history_case(draw, big=False):
             op["break_at"] = draw(st.integers(0, max(n - 1, 0)))
         if draw(st.integers(0, 3)) == 0:
             op["n"] = draw(st.integers(0, 8))
+        if case.get("templated") and draw(st.integers(0, 2)) == 0:
+            op["ds"] = draw(st.sampled_from(["x", "y"]))
         ops.append(op)
     # every history ends with a complete plain run that reveals what was kept
     # (in a new program: fresh elements even if the history re-used its own)
@@ -679,12 +713,66 @@ def crash_point_cases(tier):
                                 {"op": "run", "driver": "seq", "stop": ["complete"]}]}
 
 
+# ---- a filled Cache as a branch of a Split (hoisted into a Source when the Split is built) ------------------
+
+@st.composite
+def hoist_case(draw):
+    return {"n": draw(st.integers(0, 5)), "ctx": draw(st.sampled_from([False, True])),
+            "order": draw(st.sampled_from(["cache", "cache_first", "cache_last", "two_caches"])),
+            "bufsize": draw(st.sampled_from([1, 2, 3, None, 1000])), "copy_buf": draw(st.booleans()),
+            "flows": draw(st.lists(st.integers(0, 5), min_size=1, max_size=3))}
+
+
+def judge_hoist(case):
+    stored = upstream_values(case["n"], 1, case["ctx"])
+    with instr.Sandbox("lena-c18h-"):
+        got0 = list(Sequence(Cache("cache_H.pkl")).run(iter(copy.deepcopy(stored))))
+        if got0 != stored:
+            raise Violation("first-run-alters-the-flow", "%s" % short(got0))
+        if case["order"] == "two_caches":
+            list(Sequence(Cache("cache_G.pkl")).run(iter(copy.deepcopy(stored[:2]))))
+        tagb = lambda v: ("b", copy.deepcopy(v))
+        order = case["order"]
+        branches = {"cache": [Cache("cache_H.pkl")], "cache_first": [Cache("cache_H.pkl"), (tagb,)],
+                    "cache_last": [(tagb,), Cache("cache_H.pkl")],
+                    "two_caches": [Cache("cache_H.pkl"), (tagb,), Cache("cache_G.pkl")]}[order]
+        sp = Split(branches, bufsize=case["bufsize"], copy_buf=case["copy_buf"])
+        for run_no, m in enumerate(case["flows"]):
+            flow = upstream_values(m, 7 + run_no, case["ctx"])
+            src = CountingSource(copy.deepcopy(flow))
+            try:
+                got = list(sp.run(src()))
+            except Exception as e:
+                if type(e).__module__.startswith("harness"):
+                    raise
+                raise Violation("split-with-hoisted-cache-fails", "%s run %d: %s: %s" % (case, run_no, type(e).__name__, e))
+            bs = case["bufsize"] or max(m, 1)
+            blocks = [flow[i:i + bs] for i in range(0, m, bs)] or [[]]
+            exp = []
+            for bi, blk in enumerate(blocks):
+                for br in (["H"] if order == "cache" else ["H", "b"] if order == "cache_first" else ["b", "H"] if order == "cache_last" else ["H", "b", "G"]):
+                    if br == "b":
+                        exp.extend(("b", v) for v in blk)
+                    elif bi == 0:
+                        exp.extend(stored if br == "H" else stored[:2])
+            if got != exp:
+                sig = "hoisted-cache-in-split-does-not-replay-the-stored-flow"
+                raise Violation(sig, "%s: run %d of the same Split over %d values yields %s, expected %s" % (
+                    case, run_no, m, short(got, 300), short(exp, 300)))
+    return {"nontrivial": len(case["flows"]) > 1 and case["n"] > 0,
+            "classes": ["branches:" + order, "runs:%d" % len(case["flows"]), "bufsize:%s" % case["bufsize"]]}
+
+
 CHECKS = [
     Check("histories", judge_history, strategy=lambda tier: history_case() if tier != "thorough" else st.one_of(history_case(), history_case(big=True)), quick=1500, thorough=50000,
           rule="pipelines pre* Cache [mid* Cache] post* x flows 0-8 (bare / fresh context / one shared context object updated in place / contexts large enough to cross file-buffer boundaries) x histories of 1-6 operations "
                "(complete run, take k, process killed after k values, raise at the source or any stage at its k-th value, recompute per cache, drop_cache) x drivers (Sequence, nested Sequences, Source, Cache.alter_sequence on flat and on nested sequences, "
                "lena.core.alter_sequence, single-block Split; fresh elements per run, or the same Sequence / Source object run again), ending with a complete run. "
                "Non-trivial = an interrupted fill (0 < k < n values delivered) followed by a completed run, or two caches with a replay."),
+    Check("split_hoist", judge_hoist, strategy=lambda tier: hoist_case(), quick=300, thorough=6000,
+          rule="a filled Cache given as a bare branch of a Split (alone, before or after a per-value branch, two caches), which Split hoists into a Source through alter_sequence when it is built; "
+               "the same Split run 1-3 times over flows of 0-5 values with bufsize 1,2,3,None,1000: every run yields the stored flow once (at the first block) and the other branch's results per block. "
+               "Non-trivial = more than one run and a non-empty stored flow."),
     Check("crash_points", judge_history, cases=crash_point_cases, exhaustive=True,
           rule="complete enumeration: 4 pipelines x flow lengths 0-5 (0-8 thorough) x first-run driver x second-run driver x bare/context/shared context x every crash point of the first run "
                "(consumer stops after k = 0..n+1 values; source or any stage raises at value k = 0..n; process killed after k values), then two complete runs."),
